@@ -141,7 +141,8 @@ func c04Run(c *Ctx) {
 			body := ""
 			sum := "0"
 			for i := 0; i < np; i++ {
-				p := []string{"p", "q", "ক", "r", "s"}[i]
+				// two of the names contain precomposed letters that Unicode normalisation would rewrite
+				p := []string{"p", "\u09ac\u09df\u09b8", "ক", "\u09ac\u09dc", "s"}[i]
 				ps = append(ps, p)
 				body += " " + Print(fmt.Sprintf(`"%s=" + %s`, p, p))
 				sum += " + " + p
@@ -286,6 +287,9 @@ func c04Run(c *Ctx) {
 	n := c.N(10000, 600000)
 	for k := 0; k < n; k++ {
 		g := NewPG(r, 10+r.Intn(40))
+		if k%3 == 0 {
+			g.Names = []string{"\u09b8\u09ae\u09df", "a", "\u0997\u09dd", "ক"}
+		}
 		g.Faults = r.Intn(5) == 0
 		src := g.Program(3)
 		if !c.Mine() {
@@ -325,6 +329,11 @@ func c04Handwritten() []string {
 		Lines(Var("pos", "0"), Fun("find", "", " "+For("pos = 0;", "pos < 5", "pos = pos + 1", "{ "+If("pos == 1", Ret("pos"))+" }")+" "+Ret("-1")+" "), Print("find()"), Print("pos")),
 		Lines(Var("ticks", "0"), Fun("tick", "", " ticks = ticks + 1; "+Ret("ticks")+" "), Fun("g", "", " "+For(Var("i", "0"), "i < 9", "i = tick()", "{ "+If("i == 3", Ret(`"found"`))+" }")+" "+Ret(`"none"`)+" "), Print("g()"), Print("ticks")),
 		Lines(Fun("g", "", " "+Var("n", "0")+" "+For(";", "", "n = n + 1", "{ "+If("n == 2", "{ "+Ret("n")+" }")+" }")+" "), Print("g()")),
+		// parameters whose spelling Unicode normalisation would rewrite, read and assigned in the body and in inner closures
+		Lines(Var("\u09ac\u09df\u09b8", "99"), Fun("f", "\u09ac\u09df\u09b8", " \u09ac\u09df\u09b8 = \u09ac\u09df\u09b8 + 1; "+Ret("\u09ac\u09df\u09b8")+" "), Print("f(20)"), Print("\u09ac\u09df\u09b8"),
+			Fun("mk", "\u09b8\u09ae\u09df", " "+Fun("up", "\u09ac\u09dc", " \u09b8\u09ae\u09df = \u09b8\u09ae\u09df + \u09ac\u09dc; "+Ret("\u09b8\u09ae\u09df")+" ")+" "+Ret("up")+" "), Var("u1", "mk(1)"), Var("u2", "mk(100)"), Print("u1(1)"), Print("u2(1)"), Print("u1(5)")),
+		// a return without a value yields nil whatever earlier calls returned
+		Lines(Fun("sq", "x", " "+Ret("x * x")+" "), Fun("note", "m", " "+If(`m == ""`, "{ "+Ret("")+" }")+" "+Ret("m")+" "), Print("sq(7)"), Print(`note("")`), Print(`note("x")`), Print(`note("")`), Fun("none", "", " "+Ret("")+" "), Print("[sq(2), none(), sq(3), none()]")),
 		// one call expression executed several times while what its callee name denotes changes in between
 		Lines(Fun("greet", "", " "+Ret(`"hi"`)+" "), Fun("other", "", " "+Ret(`"yo"`)+" "), Fun("run", "", " "+Ret("greet()")+" "), Print("run()"), "greet = other;", Print("run()"), "greet = 7;", Print(`"before"`), Print("run()"), Print(`"AFTER"`)),
 		Lines(Fun("plus", "a", " "+Ret("a + 1")+" "), Fun("times", "a", " "+Ret("a * 3")+" "), Var("acc", "1"), For(Var("i", "0"), "i < 4", "i = i + 1", "{ acc = plus(acc); "+If("i == 1", "{ plus = times; }")+" }"), Print("acc")),
